@@ -458,3 +458,84 @@ Proof.
   match goal with |- match (if ?a then _ else _) with _ => _ end = _ => destruct a end;
     (destruct (_ || _); [reflexivity|]); rewrite (scan_pods_with i l l'); reflexivity.
 Qed.
+
+(* ---------- hashes written by the pass ---------- *)
+
+Lemma firstn_In_local {A} (l : list A) : forall n x, In x (firstn n l) -> In x l.
+Proof. induction l as [|y l IH]; intros n x H; [rewrite firstn_nil in H; exact H|]. destruct n; [destruct H|]. cbn in H. destruct H as [->|H]; [left; reflexivity|right; eapply IH; exact H]. Qed.
+Lemma skipn_In_local {A} (l : list A) : forall n x, In x (skipn n l) -> In x l.
+Proof. induction l as [|y l IH]; intros n x H; [rewrite skipn_nil in H; exact H|]. destruct n; [exact H|]. cbn in H. right. eapply IH; exact H. Qed.
+Lemma In_rev_local {A} (l : list A) x : In x (rev l) -> In x l.
+Proof. intros H. apply in_rev. exact H. Qed.
+
+Definition owner_hash (p : pod) (h : string) : Prop := sempty (p_crh p) = true /\ p_owner p = RSHash h.
+
+Lemma classify_unpatched_hash i p h : classify i p = PUnpatched (Some h) -> owner_hash p h.
+Proof.
+  unfold classify, owner_hash. destruct (p_deleting p); [discriminate|].
+  destruct (sempty (p_crh p)) eqn:E.
+  - destruct (p_owner p) as [| |h0]; cbn; try discriminate.
+    + destruct (negb _); [discriminate|]. destruct (negb _); [discriminate|]. destruct (atoi _); discriminate.
+    + destruct (negb _); [discriminate|]. destruct (negb _); [intros H; injection H as <-; auto|]. destruct (atoi _); discriminate.
+  - cbn. destruct (negb _); [discriminate|]. destruct (negb _); [discriminate|]. destruct (atoi _); discriminate.
+Qed.
+Lemma classify_hashonly_hash i p h : classify i p = PHashOnly h -> owner_hash p h.
+Proof.
+  unfold classify, owner_hash. destruct (p_deleting p); [discriminate|].
+  destruct (sempty (p_crh p)) eqn:E.
+  - destruct (p_owner p) as [| |h0]; cbn; try discriminate.
+    + destruct (negb _); [discriminate|]. destruct (negb _); [discriminate|]. destruct (atoi _); discriminate.
+    + destruct (negb _); [intros H; injection H as <-; auto|]. destruct (negb _); [discriminate|]. destruct (atoi _); [discriminate|intros H; injection H as <-; auto].
+  - cbn. destruct (negb _); [discriminate|]. destruct (negb _); [discriminate|]. destruct (atoi _); discriminate.
+Qed.
+
+Lemma scan_ho i : forall pods plan unp ho plan' unp' ho',
+  scan_pods i pods plan unp ho = ScanOk plan' unp' ho' ->
+  forall ph, In ph ho' -> In ph ho \/ (In (fst ph) pods /\ owner_hash (fst ph) (snd ph)).
+Proof.
+  induction pods as [|p pods IH]; intros plan unp ho plan' unp' ho' H ph Hin.
+  - cbn in H. inversion H; subst. left; exact Hin.
+  - cbn [scan_pods] in H. destruct (classify i p) as [| ch | b | h |] eqn:Hc; try discriminate.
+    + destruct (IH _ _ _ _ _ _ H ph Hin) as [Hl|[Hp Ho]]; [left; exact Hl|right; split; [right; exact Hp|exact Ho]].
+    + destruct (IH _ _ _ _ _ _ H ph Hin) as [Hl|[Hp Ho]]; [left; exact Hl|right; split; [right; exact Hp|exact Ho]].
+    + destruct (dec_plan plan b) as [plan1|]; [|discriminate].
+      destruct (IH _ _ _ _ _ _ H ph Hin) as [Hl|[Hp Ho]]; [|right; split; [right; exact Hp|exact Ho]].
+      destruct (sempty (p_crh p)) eqn:E; [|left; exact Hl].
+      destruct (p_owner p) as [| |h0] eqn:Eo; try (left; exact Hl).
+      apply in_app_or in Hl. destruct Hl as [Hl|[<-|[]]]; [left; exact Hl|]. right. cbn. split; [left; reflexivity|split; assumption].
+    + destruct (IH _ _ _ _ _ _ H ph Hin) as [Hl|[Hp Ho]]; [|right; split; [right; exact Hp|exact Ho]].
+      apply in_app_or in Hl. destruct Hl as [Hl|[<-|[]]]; [left; exact Hl|]. right. cbn. split; [left; reflexivity|]. eapply classify_hashonly_hash; exact Hc.
+Qed.
+
+(* C12: a controller-revision-hash the pass writes onto a pod is the template hash of that pod's OWN ReplicaSet, and the pod
+   carried no hash before -- hashes never travel from one pod (or ReplicaSet) to another *)
+Theorem written_hash_is_the_owners i ws w h : patch_pod_batch_label i = Ok ws -> In w ws -> w_crh w = Some h ->
+  exists p, In p (pods_used i) /\ p_name p = w_pod w /\ owner_hash p h.
+Proof.
+  intros H Hw Hh. assert (Hne : ws <> []) by (intros ->; destruct Hw).
+  unfold patch_pod_batch_label in H. unfold pods_used.
+  destruct (sempty (i_rid i) || (zlen (i_pods i) =? 0)); [inversion H; subst; destruct Hw|].
+  destruct (pods_used_opt i) as [pu|]; [|discriminate].
+  destruct ((i_cur i <? 0) || (zlen (i_batches i) <=? i_cur i)); [discriminate|].
+  destruct (scan_pods i pu _ [] []) as [plan unp ho| |] eqn:Hs; try discriminate.
+  destruct (assign _ _ _) as [ws1 lft] eqn:Ha. inversion H; subst ws; clear H.
+  destruct (scan_spec _ _ _ _ _ _ _ _ Hs) as [_ [_ [new [Hu [Hf Hcl]]]]]. cbn [app] in Hu. subst unp.
+  assert (Hunp : forall pc, In pc new -> In (fst pc) pu /\ (forall h0, snd pc = Some h0 -> owner_hash (fst pc) h0)).
+  { intros pc Hpc. split.
+    - assert (Hi : In (fst pc) (map fst new)) by (apply in_map; exact Hpc). rewrite Hf in Hi. apply filter_In in Hi. tauto.
+    - intros h0 E. eapply classify_unpatched_hash. rewrite <- E. apply Hcl. exact Hpc. }
+  destruct (assign_spec _ _ _ _ _ Ha) as [[m [Hm Hl]] _].
+  apply in_app_or in Hw. destruct Hw as [Hw|Hw].
+  - (* a batch write: its pod and hash come from the unpatched list *)
+    assert (Hi : In (w_pod w, w_crh w) (map (fun w => (w_pod w, w_crh w)) ws1)) by (apply in_map_iff; exists w; auto).
+    rewrite Hm in Hi. apply in_map_iff in Hi. destruct Hi as [pc [Hpc Hin]]. injection Hpc as Hn Hc.
+    assert (Hin' : In pc new). { apply In_rev_local. eapply firstn_In_local. exact Hin. }
+    destruct (Hunp pc Hin') as [Hp Ho]. exists (fst pc). split; [exact Hp|]. split; [exact Hn|]. apply Ho. congruence.
+  - apply in_map_iff in Hw. destruct Hw as [ph [<- Hph]]. cbn in Hh. injection Hh as <-. cbn [w_pod].
+    apply in_app_or in Hph. destruct Hph as [Hph|Hph].
+    + destruct (scan_ho _ _ _ _ _ _ _ _ Hs ph Hph) as [[]|[Hp Ho]]. exists (fst ph). auto.
+    + apply in_flat_map in Hph. destruct Hph as [pc [Hpc Hx]]. destruct (snd pc) as [h0|] eqn:E; [|destruct Hx].
+      destruct Hx as [<-|[]]. cbn [fst snd].
+      assert (Hin' : In pc new). { apply In_rev_local. subst lft. eapply skipn_In_local. exact Hpc. }
+      destruct (Hunp pc Hin') as [Hp Ho]. exists (fst pc). split; [exact Hp|]. split; [reflexivity|]. apply Ho. exact E.
+Qed.
